@@ -119,7 +119,9 @@ impl Conn {
             let r = TcpStream::connect(("127.0.0.1", port)).map_err(|e| e.to_string()).and_then(|s| {
                 let _ = s.set_nodelay(true);
                 s.set_read_timeout(Some(Duration::from_secs(30))).unwrap();
-                tungstenite::client(format!("ws://127.0.0.1:{}/", port), s).map_err(|e| e.to_string())
+                // no client-side limits: frames of any size the server sends are read
+                let cfg = tungstenite::protocol::WebSocketConfig { max_send_queue: None, max_message_size: None, max_frame_size: None, accept_unmasked_frames: false };
+                tungstenite::client::client_with_config(format!("ws://127.0.0.1:{}/", port), s, Some(cfg)).map_err(|e| e.to_string())
             });
             match r {
                 Ok((ws, _resp)) => return Ok(Conn { ws }),
